@@ -48,6 +48,7 @@ type c20Op struct {
 	Held   bool   `json:"held,omitempty"` // subscribers leave this message unacknowledged
 	Clean  bool   `json:"clean,omitempty"`
 	Expiry bool   `json:"expiry,omitempty"` // pub through the API with Message Expiry Interval 1 s
+	N      int    `json:"n,omitempty"`      // burst: number of QoS 0 publishes
 }
 
 type c20Scen struct {
@@ -58,6 +59,9 @@ type c20Scen struct {
 	// InflightExpiryMs > 0: mqtt.inflight_expiry is that short (queue capacity 3), and every publish waits it out first when
 	// some session holds an unacknowledged message: a full queue then drops the expired in-flight message (reason InflightExpired)
 	InflightExpiryMs int `json:"inflight_expiry_ms,omitempty"`
+	// StatsReaders: this many goroutines read GetClientStats / GetGlobalStats all the time (an admin API or exporter
+	// polling while traffic flows); together with op "burst" (N QoS 0 publishes through the API without waiting)
+	StatsReaders int `json:"stats_readers,omitempty"`
 }
 
 func genC20(t *rapid.T) c20Scen {
@@ -81,6 +85,7 @@ func genC20(t *rapid.T) c20Scen {
 	if rapid.IntRange(0, 3).Draw(t, "inflight_expiry") == 0 {
 		s.InflightExpiryMs, s.MaxQueued = 40, 3
 	}
+	s.StatsReaders = rapid.SampledFrom([]int{0, 0, 1, 2}).Draw(t, "stats_readers")
 	n := rapid.IntRange(3, 22).Draw(t, "nops")
 	held := 0
 	for i := 0; i < n; i++ {
@@ -98,6 +103,8 @@ func genC20(t *rapid.T) c20Scen {
 				held++
 			}
 			s.Ops = append(s.Ops, op)
+		case k == 12 && s.StatsReaders > 0:
+			s.Ops = append(s.Ops, c20Op{Op: "burst", Topic: rapid.SampledFrom([]string{"s/a", "s/b"}).Draw(t, "t"), N: rapid.SampledFrom([]int{50, 200, 400}).Draw(t, "burst_n")})
 		case k <= 13:
 			s.Ops = append(s.Ops, c20Op{Op: "offline", Client: cl})
 		case k <= 15:
@@ -307,6 +314,27 @@ func runC20(s c20Scen, c *ev.Case) *ev.Violation {
 	}
 	defer b.Stop()
 
+	if s.StatsReaders > 0 {
+		stopReaders := make(chan struct{})
+		var rwg sync.WaitGroup
+		defer func() { close(stopReaders); rwg.Wait() }()
+		for k := 0; k < s.StatsReaders && k < 4; k++ {
+			rwg.Add(1)
+			go func(k int) {
+				defer rwg.Done()
+				for {
+					select {
+					case <-stopReaders:
+						return
+					default:
+					}
+					_, _ = b.Srv.StatsManager().GetClientStats(clientName(k % 3))
+					_ = b.Srv.StatsManager().GetGlobalStats()
+				}
+			}(k)
+		}
+		c.Label("stats_readers")
+	}
 	ids := make([]string, len(s.Clients)) // client ids; replaced by the broker-assigned id for clients that sent none
 	for i := range ids {
 		ids[i] = clientName(i)
@@ -823,6 +851,26 @@ func runC20(s c20Scen, c *ev.Case) *ev.Violation {
 			endSession(op.Client)
 			sawInteresting = true
 			c.Label("terminate")
+		case "burst":
+			// N QoS 0 messages through the API as fast as they go: receivers that keep up take them off their queues while
+			// the next ones are being added, and the statistics are being read all the while
+			n := op.N
+			if n < 1 || n > 1000 {
+				return harnessErr("bad burst")
+			}
+			for k := 0; k < n; k++ {
+				uid++
+				payload := fmt.Sprintf("m%03d", uid)
+				for j, t := range sess {
+					if !t.exists {
+						continue
+					}
+					exp, _ := expectedDeliveries("overlap", t.subs, j, c01Pub{By: -2, Topic: op.Topic, QoS: 0}, payload)
+					sess[j].enq += uint64(len(exp))
+				}
+				b.Srv.Publisher().Publish(&gmqtt.Message{Topic: op.Topic, QoS: 0, Payload: []byte(payload)})
+			}
+			c.Label("burst_with_stats_readers")
 		case "sleep":
 			time.Sleep(1300 * time.Millisecond)
 			c.Label("session_expired_while_offline")
